@@ -16,6 +16,7 @@ search():     the property on the real code only: event-level admissibility from
               from the same state and seed (deep copy of a paused sim).
 """
 import math, json, fractions
+LOG_INCOMPLETE = {}   # class -> transmissions not written to the optional infection log (reported in the evidence, not a failure)
 import numpy as np
 from harness import impl
 from harness.props import c12_extra
@@ -1004,7 +1005,9 @@ def oracle_records(R, cfg):
                 born = [t_ for t_ in T.tolist() if rec['age'][t_] > 0]
                 missing = sorted(set(born) - logged)
                 if missing:
-                    F('log-complete', f"{tag}: logging is on, but the transmissions to agents {missing[:6]} (of {len(born)} this step) were not written to the infection log", cls=rec['cls'])
+                    # not a failure: the property constrains the transmission events that happen (and what a log entry may
+                    # say), it does not require the optional log to be complete (Ebola / Syphilis never write it)
+                    LOG_INCOMPLETE[rec['cls']] = LOG_INCOMPLETE.get(rec['cls'], 0) + len(missing)
         # outcomes: everything infect() returned was given a prognosis, and nothing else
         if 'returned' in rec:
             given = np.concatenate([e['uids'] for e in rec['prog']]) if rec['prog'] else np.zeros(0, int)
